@@ -1,0 +1,71 @@
+//! Verification hook (cargo feature `gohla_pie_verif`, off by default): read-only dump of the dependency store.
+use pie_graph::Node;
+
+use crate::dependency::Dependency;
+use crate::trait_object::{KeyObj, ValueObj};
+
+use super::{NodeData, Store};
+
+/// Kind of a dumped dependency edge.
+#[derive(Copy, Clone, PartialEq, Eq, Debug)]
+pub enum EdgeKind { ReservedRequire, Require, Read, Write }
+
+/// A dumped dependency edge.
+#[derive(Clone, Debug)]
+pub struct EdgeDump {
+  pub kind: EdgeKind,
+  /// Index of the target node in [`StoreDump::nodes`].
+  pub target: usize,
+  pub checker: Option<Box<dyn ValueObj>>,
+  pub stamp: Option<Box<dyn ValueObj>>,
+}
+
+/// A dumped node.
+#[derive(Clone, Debug)]
+pub struct NodeDump {
+  pub is_task: bool,
+  pub key: Box<dyn KeyObj>,
+  pub rank: u32,
+  /// Cached output of a task node.
+  pub output: Option<Box<dyn ValueObj>>,
+  /// Outgoing edges in the order in which the store iterates over them.
+  pub outgoing: Vec<EdgeDump>,
+  /// Sources of incoming edges (indices into [`StoreDump::nodes`]) in the order in which the store iterates over them.
+  pub incoming: Vec<usize>,
+}
+
+/// A dump of all nodes and edges of the dependency store.
+#[derive(Clone, Debug, Default)]
+pub struct StoreDump {
+  pub nodes: Vec<NodeDump>,
+  pub task_map_len: usize,
+  pub resource_map_len: usize,
+}
+
+impl Store {
+  /// Dumps all nodes and edges.
+  pub fn verif_dump(&self) -> StoreDump {
+    let mut ranked: Vec<(u32, Node)> = self.graph.iter_unsorted().collect();
+    ranked.sort();
+    let index_of = |node: &Node| ranked.iter().position(|(_, n)| n == node).expect("edge to unknown node");
+    let mut nodes = Vec::with_capacity(ranked.len());
+    for (rank, node) in ranked.iter() {
+      let (is_task, key, output) = match self.graph.get_node_data(node).expect("node without data") {
+        NodeData::Resource(resource) => (false, resource.clone(), None),
+        NodeData::Task { task, output } => (true, task.as_key_obj().to_owned(), output.clone()),
+      };
+      let outgoing = self.graph.get_outgoing_edges(node).map(|(dst, dependency)| {
+        let target = index_of(dst);
+        match dependency {
+          Dependency::ReservedRequire => EdgeDump { kind: EdgeKind::ReservedRequire, target, checker: None, stamp: None },
+          Dependency::Require(d) => EdgeDump { kind: EdgeKind::Require, target, checker: Some(d.checker().to_owned()), stamp: Some(d.stamp().to_owned()) },
+          Dependency::Read(d) => EdgeDump { kind: EdgeKind::Read, target, checker: Some(d.checker().to_owned()), stamp: Some(d.stamp().to_owned()) },
+          Dependency::Write(d) => EdgeDump { kind: EdgeKind::Write, target, checker: Some(d.checker().to_owned()), stamp: Some(d.stamp().to_owned()) },
+        }
+      }).collect();
+      let incoming = self.graph.get_incoming_edge_nodes(node).map(|src| index_of(src)).collect();
+      nodes.push(NodeDump { is_task, key, rank: *rank, output, outgoing, incoming });
+    }
+    StoreDump { nodes, task_map_len: self.task_to_node.len(), resource_map_len: self.resource_to_node.len() }
+  }
+}
